@@ -31,11 +31,36 @@ pub struct Rep {
     pub v: u64,
 }
 
+/// executions per request id, shared by every handler of every server (single-threaded simulation)
+#[derive(Clone)]
+pub struct Execs(Rc<RefCell<BTreeMap<u64, u32>>>);
+unsafe impl Send for Execs {}
+unsafe impl Sync for Execs {}
+
 pub struct Svc {
-    execs: Rc<RefCell<BTreeMap<u64, u32>>>,
+    /// which server this instance runs on (part of every reply value)
+    sid: u64,
+    execs: Execs,
 }
 unsafe impl Send for Svc {}
 unsafe impl Sync for Svc {}
+
+/// a second service handling the same message type (another reply function)
+pub struct Svc2 {
+    sid: u64,
+    execs: Execs,
+}
+unsafe impl Send for Svc2 {}
+unsafe impl Sync for Svc2 {}
+
+impl RpcService for Svc2 {
+    fn service_name() -> &'static str {
+        "c14-second-service"
+    }
+    fn register_handlers(r: &mut ServiceRegistry<Self>) {
+        r.add_handler::<Msg>();
+    }
+}
 
 impl RpcService for Svc {
     fn register_handlers(r: &mut ServiceRegistry<Self>) {
@@ -57,16 +82,58 @@ fn f(id: u64, pad: usize) -> u64 {
     id.wrapping_mul(0x9E37_79B9_7F4A_7C15) ^ (pad as u64)
 }
 
+/// the reply the handler of service `svc` on server `srv` computes for request `id`
+fn expected(id: u64, pad: usize, svc: u8, srv: u8) -> u64 {
+    let v = if svc == 0 { f(id, pad) } else { f(id, pad).rotate_left(17) };
+    v ^ ((srv as u64) << 56)
+}
+
+/// bits 28-30 of the delay field ask the handler to fail with that error code (1-5, as numbered by
+/// `code_num`) and a message naming the request
+const FAIL_SHIFT: u32 = 28;
+const FAIL_MASK: u32 = 7 << FAIL_SHIFT;
+
+fn status_of(code: u8, message: String) -> Status {
+    let code = match code {
+        1 => ErrorCode::ServiceUnavailable,
+        3 => ErrorCode::InvalidPayload,
+        4 => ErrorCode::ConnectionError,
+        5 => ErrorCode::Timeout,
+        _ => ErrorCode::InternalError,
+    };
+    Status { code, message }
+}
+
+fn refusal_text(id: u64, svc: u8, srv: u8) -> String {
+    format!("request {id} refused by service {svc} on server {srv}")
+}
+
+async fn handle(sid: u64, svc: u8, execs: &Execs, msg: Request<Msg>) -> Result<Rep, Status> {
+    let (id, delay, pad) = (msg.id.value(), msg.delay_ms.value(), msg.pad.len());
+    *execs.0.borrow_mut().entry(id).or_insert(0) += 1;
+    let (fail, delay) = (((delay & FAIL_MASK) >> FAIL_SHIFT) as u8, delay & !FAIL_MASK);
+    if delay > 0 {
+        tokio::time::sleep(Duration::from_millis(delay as u64)).await;
+    }
+    if fail != 0 {
+        return Err(status_of(fail, refusal_text(id, svc, sid as u8)));
+    }
+    Ok(Rep { id, v: expected(id, pad, svc, sid as u8) })
+}
+
+#[datacake_rpc::async_trait]
+impl Handler<Msg> for Svc2 {
+    type Reply = Rep;
+    async fn on_message(&self, msg: Request<Msg>) -> Result<Rep, Status> {
+        handle(self.sid, 1, &self.execs, msg).await
+    }
+}
+
 #[datacake_rpc::async_trait]
 impl Handler<Msg> for Svc {
     type Reply = Rep;
     async fn on_message(&self, msg: Request<Msg>) -> Result<Rep, Status> {
-        let (id, delay, pad) = (msg.id.value(), msg.delay_ms.value(), msg.pad.len());
-        *self.execs.borrow_mut().entry(id).or_insert(0) += 1;
-        if delay > 0 {
-            tokio::time::sleep(Duration::from_millis(delay as u64)).await;
-        }
-        Ok(Rep { id, v: f(id, pad) })
+        handle(self.sid, 0, &self.execs, msg).await
     }
 }
 
@@ -78,6 +145,16 @@ pub struct Req {
     /// send through a clone of the configured client (clients are cloned to be shared)
     #[serde(default)]
     pub via_clone: bool,
+    /// which server, which client host, which of the two services; whether the handler fails
+    #[serde(default)]
+    pub srv: u8,
+    #[serde(default)]
+    pub cli: u8,
+    #[serde(default)]
+    pub svc: u8,
+    /// 0: the handler answers; 1-5: it refuses with that error code (numbered as in `code_num`)
+    #[serde(default)]
+    pub fail: u8,
 }
 
 #[derive(serde::Serialize, serde::Deserialize, Clone, Debug)]
@@ -87,22 +164,50 @@ pub enum Ev {
     #[serde(rename = "wave")]
     Wave { t: u64, new_channel: bool, reqs: Vec<Req> },
     #[serde(rename = "hold")]
-    Hold { t: u64 },
+    Hold {
+        t: u64,
+        #[serde(default)]
+        cli: u8,
+        #[serde(default)]
+        srv: u8,
+    },
     #[serde(rename = "release")]
-    Release { t: u64 },
+    Release {
+        t: u64,
+        #[serde(default)]
+        cli: u8,
+        #[serde(default)]
+        srv: u8,
+    },
     #[serde(rename = "partition")]
-    Partition { t: u64 },
+    Partition {
+        t: u64,
+        #[serde(default)]
+        cli: u8,
+        #[serde(default)]
+        srv: u8,
+    },
     #[serde(rename = "repair")]
-    Repair { t: u64 },
-    /// the server process is killed and restarted
+    Repair {
+        t: u64,
+        #[serde(default)]
+        cli: u8,
+        #[serde(default)]
+        srv: u8,
+    },
+    /// a server process is killed and restarted
     #[serde(rename = "bounce")]
-    Bounce { t: u64 },
+    Bounce {
+        t: u64,
+        #[serde(default)]
+        srv: u8,
+    },
 }
 
 impl Ev {
     fn t(&self) -> u64 {
         match self {
-            Ev::Wave { t, .. } | Ev::Hold { t } | Ev::Release { t } | Ev::Partition { t } | Ev::Repair { t } | Ev::Bounce { t } => *t,
+            Ev::Wave { t, .. } | Ev::Hold { t, .. } | Ev::Release { t, .. } | Ev::Partition { t, .. } | Ev::Repair { t, .. } | Ev::Bounce { t, .. } => *t,
         }
     }
 }
@@ -112,6 +217,11 @@ pub struct Scenario {
     pub net_seed: u64,
     pub latency_ms: (u64, u64),
     pub events: Vec<Ev>,
+    /// number of server hosts / client hosts (0 or 1: one)
+    #[serde(default)]
+    pub servers: u8,
+    #[serde(default)]
+    pub clients: u8,
 }
 
 pub struct C14;
@@ -125,6 +235,9 @@ struct Done {
     id: u64,
     pad: usize,
     timeout_ms: Option<u64>,
+    svc: u8,
+    srv: u8,
+    fail: u8,
     took_ms: u64,
     res: Result<(u64, u64), (u8, String)>,
     abandoned: bool,
@@ -138,10 +251,10 @@ impl Check for C14 {
         "Under network faults an RPC answers correctly or fails; never twice or mixed"
     }
     fn engine(&self) -> &'static str {
-        "E2: one server host (real datacake-rpc Server, handler logs executions per request id, optional handler delay) and one client host (real RpcClient/Channel) over simulated TCP with timed hold/release, partition/repair (also mid-stream) and server kill+restart"
+        "E2: one or two server hosts (real datacake-rpc Server, two services sharing a message type, handlers log executions per request id, optional handler delay or refusal) and one or two client hosts (real RpcClient/Channel, one Channel per server) over simulated TCP with timed hold/release, partition/repair (also mid-stream) and server kill+restart"
     }
     fn rule(&self) -> &'static str {
-        "Cases: 2-14 waves of 1-12 concurrent requests with unique ids, payloads 0-20 KiB (one case in seven: also 64-900 KiB, several HTTP/2 flow-control windows), handler delays 0-600 ms, per-request client timeouts 30-2500 ms or none (the configured client used directly or through a clone), several clients sharing one Channel (first use raced) or a fresh Channel per wave; 0-8 fault events at seeded times: link hold/release, partition/repair (segments of established streams are dropped), server kill+restart. Oracle over the recorded results: each is Ok(f(id, payload size)) carrying its own id, or ConnectionError/Timeout; the handler ran at most once per id and at least once for every Ok; a request with client timeout T returned within T + 2 ms; nothing panics. Requests without a timeout that are black-holed are abandoned by the harness after 30 simulated s (allowed). Non-trivial = a fault event lies between the first and last wave and >= 2 requests overlapped. Distinct = hash of the result-kind sequence."
+        "Cases: one or (half the cases) two server hosts and one or two client hosts; every server offers two services that share one message type and answer differently, and 15 % of the requests of those cases are refused by their handler with one of the five error codes and a message naming the request; 2-14 waves of 1-12 concurrent requests with unique ids, payloads 0-20 KiB (one case in seven: also 64-900 KiB, several HTTP/2 flow-control windows), handler delays 0-600 ms, per-request client timeouts 30-2500 ms or none (the configured client used directly or through a clone), several clients sharing one Channel (first use raced) or a fresh Channel per wave; 0-8 fault events at seeded times: link hold/release, partition/repair (segments of established streams are dropped), server kill+restart. Oracle over the recorded results: each is Ok(f(id, payload size, service, server)) carrying its own id, or its own handler's refusal verbatim, or ConnectionError/Timeout; the handler ran at most once per id and at least once for every Ok; a request with client timeout T returned within T + 2 ms; nothing panics. Requests without a timeout that are black-holed are abandoned by the harness after 30 simulated s (allowed). Non-trivial = a fault event lies between the first and last wave and >= 2 requests overlapped. Distinct = hash of the result-kind sequence."
     }
     fn assumptions(&self) -> Vec<String> {
         vec![
@@ -163,6 +276,11 @@ impl Check for C14 {
         let waves = rng.gen_range(2..=14);
         // one case in seven also sends large messages (several HTTP/2 flow-control windows)
         let large = rng.gen_bool(1.0 / 7.0);
+        // half the cases: two servers and/or two client hosts, two services sharing the message
+        // type on every server, handlers that fail for some requests
+        let wide = rng.gen_bool(0.5);
+        let servers: u8 = if wide && rng.gen_bool(0.7) { 2 } else { 1 };
+        let clients: u8 = if wide && rng.gen_bool(0.5) { 2 } else { 1 };
         let mut events = Vec::new();
         let mut t = rng.gen_range(0..50);
         for w in 0..waves {
@@ -178,6 +296,10 @@ impl Check for C14 {
                     delay_ms: if rng.gen_bool(0.3) { rng.gen_range(1..600) } else { 0 },
                     timeout_ms: if rng.gen_bool(0.6) { Some(rng.gen_range(30..2_500)) } else { None },
                     via_clone: rng.gen_bool(0.4),
+                    srv: rng.gen_range(0..servers),
+                    cli: rng.gen_range(0..clients),
+                    svc: if wide { rng.gen_range(0..2) } else { 0 },
+                    fail: if wide && rng.gen_bool(0.15) { rng.gen_range(1..=5) } else { 0 },
                 })
                 .collect();
             events.push(Ev::Wave { t, new_channel: w > 0 && rng.gen_bool(0.25), reqs });
@@ -187,21 +309,29 @@ impl Check for C14 {
         let kinds = rng.gen_range(0..8u32); // bitmask-ish variety
         for _ in 0..rng.gen_range(0..=8) {
             let ft = rng.gen_range(0..span);
+            let (cli, srv) = (rng.gen_range(0..clients), rng.gen_range(0..servers));
             match (rng.gen_range(0..10), kinds) {
                 (0..=3, _) => {
-                    events.push(Ev::Hold { t: ft });
-                    events.push(Ev::Release { t: ft + rng.gen_range(5..1_500) });
+                    events.push(Ev::Hold { t: ft, cli, srv });
+                    events.push(Ev::Release { t: ft + rng.gen_range(5..1_500), cli, srv });
                 },
                 (4..=5, k) if k % 2 == 0 => {
-                    events.push(Ev::Partition { t: ft });
-                    events.push(Ev::Repair { t: ft + rng.gen_range(5..1_500) });
+                    events.push(Ev::Partition { t: ft, cli, srv });
+                    events.push(Ev::Repair { t: ft + rng.gen_range(5..1_500), cli, srv });
                 },
-                (6, k) if k % 3 != 0 => events.push(Ev::Bounce { t: ft }),
+                (6, k) if k % 3 != 0 => events.push(Ev::Bounce { t: ft, srv }),
                 _ => {},
             }
         }
         events.sort_by_key(|e| e.t());
-        serde_json::to_value(Scenario { net_seed: rng.gen(), latency_ms: (1, *[2u64, 20, 80].get(rng.gen_range(0..3)).unwrap()), events }).unwrap()
+        serde_json::to_value(Scenario {
+            net_seed: rng.gen(),
+            latency_ms: (1, *[2u64, 20, 80].get(rng.gen_range(0..3)).unwrap()),
+            events,
+            servers,
+            clients,
+        })
+        .unwrap()
     }
     fn isolate(&self, _scenario: &Value) -> bool {
         true
@@ -221,54 +351,83 @@ impl Check for C14 {
             .min_message_latency(Duration::from_millis(sc.latency_ms.0))
             .max_message_latency(Duration::from_millis(sc.latency_ms.1.max(sc.latency_ms.0)))
             .build_with_rng(Box::new(rand::rngs::SmallRng::seed_from_u64(sc.net_seed)));
-        {
-            let execs = execs.clone();
-            sim.host("server", move || {
+        let (n_srv, n_cli) = (sc.servers.max(1) as usize, sc.clients.max(1) as usize);
+        const SRV: [&str; 2] = ["server", "server1"];
+        const CLI: [&str; 2] = ["client", "client1"];
+        if n_srv > 2 || n_cli > 2 {
+            return Outcome::invalid("at most two servers and two clients".to_string());
+        }
+        for (sid, name) in SRV.iter().enumerate().take(n_srv) {
+            let execs = Execs(execs.clone());
+            sim.host(*name, move || {
                 let execs = execs.clone();
                 async move {
                     let s = Server::listen((IpAddr::from(Ipv4Addr::UNSPECIFIED), PORT).into()).await?;
-                    s.add_service(Svc { execs });
+                    s.add_service(Svc { sid: sid as u64, execs: execs.clone() });
+                    s.add_service(Svc2 { sid: sid as u64, execs });
                     std::future::pending::<()>().await;
                     Ok(())
                 }
             });
         }
         type WaveCmd = (bool, Vec<(u64, Req)>);
-        let (wtx, wrx) = tokio::sync::mpsc::unbounded_channel::<WaveCmd>();
-        let wrx = Rc::new(RefCell::new(Some(wrx)));
-        {
+        let mut wtxs = Vec::new();
+        for name in CLI.iter().take(n_cli) {
+            let (wtx, wrx) = tokio::sync::mpsc::unbounded_channel::<WaveCmd>();
+            wtxs.push(wtx);
+            let wrx = Rc::new(RefCell::new(Some(wrx)));
             let done = done.clone();
-            sim.host("client", move || {
+            sim.host(*name, move || {
                 let (done, wrx) = (done.clone(), wrx.clone());
                 async move {
-                    let addr: SocketAddr = (turmoil::lookup("server"), PORT).into();
-                    let mut chan = Channel::connect(addr);
+                    let addrs: Vec<SocketAddr> = SRV.iter().take(n_srv).map(|s| (turmoil::lookup(*s), PORT).into()).collect();
+                    let mut chans: Vec<Channel> = addrs.iter().map(|a| Channel::connect(*a)).collect();
                     let mut rx = wrx.borrow_mut().take().expect("client started twice");
                     while let Some((new_channel, reqs)) = rx.recv().await {
                         if new_channel {
-                            chan = Channel::connect(addr);
+                            chans = addrs.iter().map(|a| Channel::connect(*a)).collect();
                         }
                         for (id, r) in reqs {
-                            let mut c = RpcClient::<Svc>::new(chan.clone());
-                            if let Some(t) = r.timeout_ms {
-                                c.set_timeout(Duration::from_millis(t));
-                            }
-                            let c = if r.via_clone { c.clone() } else { c };
+                            let chan = chans[(r.srv as usize).min(n_srv - 1)].clone();
                             let done = done.clone();
-                            tokio::task::spawn_local(async move {
-                                let msg = Msg { id, delay_ms: r.delay_ms, pad: vec![7u8; r.pad] };
-                                let start = turmoil::elapsed();
-                                let fut = c.send(&msg);
-                                let (res, abandoned) = match tokio::time::timeout(Duration::from_millis(OUTER_MS), fut).await {
-                                    Ok(r) => (
-                                        r.map(|v| (v.id.value(), v.v.value())).map_err(|s| (code_num(&s.code), s.message)),
-                                        false,
-                                    ),
-                                    Err(_) => (Err((5, "abandoned by the harness".to_string())), true),
-                                };
-                                let took = (turmoil::elapsed() - start).as_millis() as u64;
-                                done.borrow_mut().push(Done { id, pad: r.pad, timeout_ms: r.timeout_ms, took_ms: took, res, abandoned });
-                            });
+                            let msg = Msg { id, delay_ms: r.delay_ms | ((r.fail.min(5) as u32) << FAIL_SHIFT), pad: vec![7u8; r.pad] };
+                            macro_rules! go {
+                                ($svc:ty) => {{
+                                    let mut c = RpcClient::<$svc>::new(chan);
+                                    if let Some(t) = r.timeout_ms {
+                                        c.set_timeout(Duration::from_millis(t));
+                                    }
+                                    let c = if r.via_clone { c.clone() } else { c };
+                                    tokio::task::spawn_local(async move {
+                                        let start = turmoil::elapsed();
+                                        let fut = c.send(&msg);
+                                        let (res, abandoned) = match tokio::time::timeout(Duration::from_millis(OUTER_MS), fut).await {
+                                            Ok(r) => (
+                                                r.map(|v| (v.id.value(), v.v.value())).map_err(|s| (code_num(&s.code), s.message)),
+                                                false,
+                                            ),
+                                            Err(_) => (Err((5, "abandoned by the harness".to_string())), true),
+                                        };
+                                        let took = (turmoil::elapsed() - start).as_millis() as u64;
+                                        done.borrow_mut().push(Done {
+                                            id,
+                                            pad: r.pad,
+                                            timeout_ms: r.timeout_ms,
+                                            svc: r.svc,
+                                            srv: r.srv,
+                                            fail: r.fail,
+                                            took_ms: took,
+                                            res,
+                                            abandoned,
+                                        });
+                                    });
+                                }};
+                            }
+                            if r.svc == 0 {
+                                go!(Svc)
+                            } else {
+                                go!(Svc2)
+                            }
                         }
                     }
                     std::future::pending::<()>().await;
@@ -303,34 +462,43 @@ impl Check for C14 {
                             })
                             .collect();
                         issued.set(issued.get() + v.len() as u64);
-                        let _ = wtx.send((*new_channel, v));
+                        for (ci, wtx) in wtxs.iter().enumerate() {
+                            let mine: Vec<(u64, Req)> = v.iter().filter(|(_, r)| (r.cli as usize).min(n_cli - 1) == ci).cloned().collect();
+                            if !mine.is_empty() || *new_channel {
+                                let _ = wtx.send((*new_channel, mine));
+                            }
+                        }
                         if first_wave.is_none() {
                             first_wave = Some(ev.t());
                         }
                         last_wave = ev.t();
                     },
-                    Ev::Hold { .. } => {
-                        sim.hold("client", "server");
+                    Ev::Hold { cli, srv, .. } => {
+                        sim.hold(CLI[(*cli as usize).min(n_cli - 1)], SRV[(*srv as usize).min(n_srv - 1)]);
                         out.fault("link_hold");
                         fault_between |= first_wave.is_some();
                     },
-                    Ev::Release { .. } => sim.release("client", "server"),
-                    Ev::Partition { .. } => {
-                        sim.partition("client", "server");
+                    Ev::Release { cli, srv, .. } => sim.release(CLI[(*cli as usize).min(n_cli - 1)], SRV[(*srv as usize).min(n_srv - 1)]),
+                    Ev::Partition { cli, srv, .. } => {
+                        sim.partition(CLI[(*cli as usize).min(n_cli - 1)], SRV[(*srv as usize).min(n_srv - 1)]);
                         out.fault("partition");
                         fault_between |= first_wave.is_some();
                     },
-                    Ev::Repair { .. } => sim.repair("client", "server"),
-                    Ev::Bounce { .. } => {
-                        sim.bounce("server");
+                    Ev::Repair { cli, srv, .. } => sim.repair(CLI[(*cli as usize).min(n_cli - 1)], SRV[(*srv as usize).min(n_srv - 1)]),
+                    Ev::Bounce { srv, .. } => {
+                        sim.bounce(SRV[(*srv as usize).min(n_srv - 1)]);
                         out.fault("server_kill_restart");
                         fault_between |= first_wave.is_some();
                     },
                 }
             }
             // all faults stop; give every request the chance to finish or be abandoned
-            sim.release("client", "server");
-            sim.repair("client", "server");
+            for c in CLI.iter().take(n_cli) {
+                for sv in SRV.iter().take(n_srv) {
+                    sim.release(*c, *sv);
+                    sim.repair(*c, *sv);
+                }
+            }
             let end = sim.elapsed().as_millis() as u64 + OUTER_MS + 2_000;
             while (sim.elapsed().as_millis() as u64) < end && (done.borrow().len() as u64) < issued.get() {
                 sim.step().map_err(|e| e.to_string())?;
@@ -363,8 +531,18 @@ impl Check for C14 {
                     tr.u64(1);
                     if *rid != d.id {
                         out.violate("C14/reply-of-another-request", format!("request {} received the reply of request {rid}", d.id));
-                    } else if *v != f(d.id, d.pad) {
-                        out.violate("C14/wrong-reply-value", format!("request {}: reply value {v} != {}", d.id, f(d.id, d.pad)));
+                    } else if *v != expected(d.id, d.pad, d.svc, d.srv) {
+                        let whose = if *v == expected(d.id, d.pad, 1 - d.svc.min(1), d.srv) {
+                            " (the other service's reply)"
+                        } else if *v == expected(d.id, d.pad, d.svc, 1 - d.srv.min(1)) {
+                            " (the other server's reply)"
+                        } else {
+                            ""
+                        };
+                        out.violate("C14/wrong-reply-value", format!("request {}: reply value {v} != {}{whose}", d.id, expected(d.id, d.pad, d.svc, d.srv)));
+                    }
+                    if d.fail != 0 {
+                        out.violate("C14/handler-error-turned-into-ok", format!("request {} was refused by its handler but the client got Ok", d.id));
                     }
                     if ex == 0 {
                         out.violate("C14/ok-without-execution", format!("request {} returned Ok but the handler never ran for it", d.id));
@@ -377,6 +555,18 @@ impl Check for C14 {
                         if d.timeout_ms.is_some() {
                             out.violate("C14/timeout-not-honoured", format!("request {} had a {} ms client timeout but was still pending after {OUTER_MS} ms", d.id, d.timeout_ms.unwrap()));
                         }
+                    } else if d.fail != 0 && *code == d.fail && *msg == refusal_text(d.id, d.svc, d.srv) {
+                        // the handler's own refusal, as computed for this very request
+                        out.probe("handler_refusals_delivered");
+                        if ex == 0 {
+                            out.violate("C14/ok-without-execution", format!("request {} got a handler refusal but the handler never ran for it", d.id));
+                        }
+                    } else if msg.starts_with("request ") && msg.contains(" refused by service ") {
+                        // a handler's refusal, but not the one computed for this request
+                        out.violate(
+                            "C14/reply-of-another-request",
+                            format!("request {} received the refusal (#{code}, {msg:?}); its handler said (#{}, {:?})", d.id, d.fail, refusal_text(d.id, d.svc, d.srv)),
+                        );
                     } else if !matches!(*code, 4 | 5) {
                         out.violate("C14/unexpected-error-kind", format!("request {} failed with error code #{}: {msg}", d.id, code));
                     }
